@@ -166,6 +166,22 @@ func c10Scenarios(tier string) []Scenario {
 						{ID: 1, Match: MatchNil, StartAt: 7, CancelAt: -1, After: -1}}, Dgs: d}, "write-fault")
 			}
 		}
+		// (4d) logging configurations: the debug logger prints every message, dropped packets are logged;
+		// streams mixing undecodable / foreign datagrams with long replies (logging must not disturb routing)
+		alphaL := []DgSpec{{Kind: DgGood, ID: 0}, {Kind: DgBad, ID: 0}, {Kind: DgGood, ID: 1}, {Kind: DgGarbage}, {Kind: DgRequestOp, ID: 0}}
+		for _, seq := range dgSequences(alphaL, seqLen) {
+			if len(seq) == 0 {
+				continue
+			}
+			for _, m := range []MatchKind{MatchNil, MatchGood} {
+				d := append([]DgSpec{}, seq...)
+				for i := range d {
+					d[i].At = int64(i)
+				}
+				add(&ClientScenario{V6: v6, T: T + 1, Tries: 1, BufCap: 1, CloseAt: -1, Bound: 1, Log: true,
+					Calls: []CallSpec{{ID: 0, Match: m, CancelAt: -1, After: -1}}, Dgs: d}, "logging")
+			}
+		}
 		// (5) many callers: 4 (quick) / 5 (thorough) concurrent callers, two of them colliding
 		{
 			nc := 4
